@@ -200,6 +200,7 @@ def model (toks : List String) : String :=
   match toks with
   | "ev" :: rest => (modelEv rest).getD "bad-op"
   | "agg" :: rest => (modelAgg rest).getD "bad-op"
+  | "qry" :: _ => "?"          -- whole queries through the CLI are oracle-only
   | _ => "bad-op"
 
 /-! ### the oracle: every value the implementation printed matches the static type the implementation reported -/
@@ -280,10 +281,105 @@ def judgeAgg (out : List String) : String :=
       | [] => "bad unparsable-aggregate-head"
     | _ => "bad unparsable-impl-output"
 
+/-! ### whole queries: the cells of `-o json` against the column types of `--describe` -/
+
+/-- a JSON cell -/
+inductive JV where
+  | null | int | float | bool | str
+  | arr (xs : List JV)
+  /-- an object (not judged) -/
+  | obj
+  deriving Repr, Inhabited
+
+partial def parseJV : List String → Option (JV × List String)
+  | [] => none
+  | tok :: rest =>
+    if tok == "n" then some (.null, rest)
+    else if tok == "J" then some (.obj, rest)
+    else match tok.front with
+      | 'i' => some (.int, rest)
+      | 'f' => some (.float, rest)
+      | 'b' => some (.bool, rest)
+      | 's' => some (.str, rest)
+      | 'L' => (many (tok.drop 1).toString.toNat! rest).map fun (xs, r) => (.arr xs, r)
+      | _ => none
+where
+  many : Nat → List String → Option (List JV × List String)
+    | 0, rest => some ([], rest)
+    | k + 1, rest => do
+      let (v, r) ← parseJV rest
+      let (vs, r') ← many k r
+      pure (v :: vs, r')
+
+mutual
+/-- can the JSON text be the rendering of a value of this type?  A number without a fraction may be an Int, a whole Float or
+    (never printed so, but harmless) nothing else; a string may be a String, a Time or a Duration; objects are not judged. -/
+partial def jsonConforms : Ty → JV → Bool
+  | .any, _ => true
+  | _, .obj => true
+  | .union alts, v => alts.any fun a => jsonConforms a v
+  | .null, .null => true
+  | .int, .int => true
+  | .float, .int => true
+  | .float, .float => true
+  | .bool, .bool => true
+  | .str, .str => true
+  | .time, .str => true
+  | .dur, .str => true
+  | .listNil, .arr xs => xs.isEmpty
+  | .list e, .arr xs => xs.all fun x => jsonConforms e x
+  | .tuple ts, .arr xs => ts.length == xs.length && (ts.zip xs).all fun p => jsonConforms p.1 p.2
+  | _, _ => false
+end
+
+def parseSchema : Nat → List String → Option (List (String × Ty) × List String)
+  | 0, rest => some ([], rest)
+  | k + 1, nmTok :: rest => do
+    let (t, r) ← parseTy rest
+    let (cs, r') ← parseSchema k r
+    pure ((nmTok, t) :: cs, r')
+  | _, [] => none
+
+partial def judgeCells (cols : List (String × Ty)) (row : Nat) : List (String × Ty) → List String → String
+  | [], [] => "ok"
+  | [], _ => s!"bad row {row}: more cells than columns"
+  | (nmTok, t) :: cs, toks =>
+    match toks with
+    | "missing" :: _ => s!"bad row {row}: column {nmTok} is missing from the output record"
+    | _ =>
+      match parseJV toks with
+      | none => s!"bad row {row}: unparsable cell"
+      | some (v, r) =>
+        if jsonConforms t v then judgeCells cols row cs r
+        else s!"bad row {row}: cell {String.intercalate " " (toks.take (toks.length - r.length))} of column {nmTok} does not match the described type {encodeTy t}"
+
+def judgeQry (out : List String) : String :=
+  match out with
+  | ["err"] => "ok"
+  | ["panic"] => "ok"
+  | k :: rest =>
+    match parseSchema k.toNat! rest with
+    | some (cols, "|" :: body) =>
+      (match body with
+       | ["err"] => "ok"
+       | ["panic"] => "ok"
+       | ["none"] => "ok"
+       | ["err:row-json"] => "ok"       -- the JSON printer emitted a bare NaN / Inf (C25's subject), nothing to judge
+       | _ =>
+         let rec go (i : Nat) : List (List String) → String
+           | [] => "ok"
+           | r :: rs =>
+             let v := judgeCells cols i cols r
+             if v == "ok" then go (i + 1) rs else v
+         go 0 (splitOn ";" body))
+    | _ => "bad unparsable-describe-output"
+  | [] => "bad empty-output"
+
 def judge (toks : List String) (out : List String) : String :=
   match toks with
   | "ev" :: _ => judgeEv out
   | "agg" :: _ => judgeAgg out
+  | "qry" :: _ => judgeQry out
   | _ => "ok"
 
 end Octo.Drv.C08
